@@ -107,7 +107,15 @@ pub fn c19(a: &Analysis) -> Vec<Violation> {
             for (s0, s1, vt0, vt1) in windows(side, &user_suspends(a, ent, t)) {
                 // (a) silence
                 let leaked: Vec<_> = side.sent.iter().filter(|p| p.seq > s0 && p.seq < s1 && restricted(p.kind)).collect();
-                if leaked.len() > ALLOWANCE {
+                // the allowance covers PDUs that were on their way to the link when the suspension
+                // took effect: they are logged within two serialisation times of it. Anything of a
+                // restricted kind logged later was created by a suspended transaction.
+                let ser = (sc.ser_us + sc.ser_ns_byte * (sc.ents[ent].seg as u64 + 128) / 1000).max(1000);
+                let grace = 2 * ser + 2_000;
+                // (a PDU logged at the very instant of the resume was released by it: the Resumed
+                // indication is logged a few scheduler hops later)
+                let late = leaked.iter().filter(|p| p.vt > vt0 + grace && p.vt < vt1).count();
+                if leaked.len() > ALLOWANCE || late > 0 {
                     out.push(vv(
                         "C19",
                         "transmits_while_suspended",
